@@ -317,8 +317,16 @@ func (s *Sched) abort() {
 	}
 }
 
+// PointHook, when set, is called by the running thread at every scheduling point, before the next
+// thread is chosen: no other thread runs meanwhile, so what is on disk at that instant is well
+// defined (used to take crash images inside a schedule). It must not use the rewritten primitives.
+var PointHook func(thread string)
+
 // yield is called by the running thread t before it performs o.
 func (s *Sched) yield(t *Thread, o *op) {
+	if h := PointHook; h != nil {
+		h(t.Name)
+	}
 	if s.sites {
 		o.site = site()
 	}
